@@ -559,6 +559,16 @@ func (dm *DagModifier) appendData(nd ipld.Node, spl chunker.Splitter) (ipld.Node
 
 	switch nd := nd.(type) {
 	case *mdag.ProtoNode:
+		if len(nd.Links()) == 0 {
+			// A dag-pb leaf keeps the file bytes in its own Data, and readers
+			// ignore the Data of a node that has links: move the bytes into a
+			// leaf block of their own before blocks are appended next to them.
+			var err error
+			nd, err = dm.leafToFile(nd, dagserv)
+			if err != nil {
+				return nil, err
+			}
+		}
 		// ProtoNode can be directly passed to trickle.Append
 		dbp := &help.DagBuilderParams{
 			Dagserv:    dagserv,
@@ -613,6 +623,58 @@ func (dm *DagModifier) appendData(nd ipld.Node, spl chunker.Splitter) (ipld.Node
 	default:
 		return nil, ErrNotUnixfs
 	}
+}
+
+// leafToFile turns a dag-pb leaf (a UnixFS node without links that carries the
+// file bytes in Data) into a file node with one leaf block holding those bytes,
+// keeping mode and mtime on the file node. A leaf without data is returned as is.
+func (dm *DagModifier) leafToFile(nd *mdag.ProtoNode, dagserv ipld.DAGService) (*mdag.ProtoNode, error) {
+	fsn, err := ft.FSNodeFromBytes(nd.Data())
+	if err != nil {
+		return nil, err
+	}
+	data := fsn.Data()
+	if len(data) == 0 {
+		return nd, nil
+	}
+
+	var leaf ipld.Node
+	if dm.RawLeaves {
+		prefix, _ := dm.safePrefixForSize(dm.Prefix, len(data))
+		leaf, err = mdag.NewRawNodeWPrefix(data, prefix)
+		if err != nil {
+			return nil, err
+		}
+	} else {
+		leafFsn := ft.NewFSNode(ft.TRaw)
+		leafFsn.SetData(data)
+		leafBytes, err := leafFsn.GetBytes()
+		if err != nil {
+			return nil, err
+		}
+		pbLeaf := mdag.NodeWithData(leafBytes)
+		pbLeaf.SetCidBuilder(dm.Prefix)
+		dm.ensureSafeProtoNodeHash(pbLeaf)
+		leaf = pbLeaf
+	}
+	if err := dagserv.Add(dm.ctx, leaf); err != nil {
+		return nil, err
+	}
+
+	fileFsn := ft.NewFSNode(ft.TFile)
+	fileFsn.SetMode(fsn.Mode())
+	fileFsn.SetModTime(fsn.ModTime())
+	fileFsn.AddBlockSize(uint64(len(data)))
+	fileBytes, err := fileFsn.GetBytes()
+	if err != nil {
+		return nil, err
+	}
+	file := mdag.NodeWithData(fileBytes)
+	file.SetCidBuilder(nd.CidBuilder())
+	if err := file.AddNodeLink("", leaf); err != nil {
+		return nil, err
+	}
+	return file, nil
 }
 
 // Read data from this dag starting at the current offset
